@@ -23,6 +23,11 @@ mod arbitrary_tests {
     include!(concat!(env!("OUT_DIR"), "/arbitrary.rs"));
 }
 
+#[allow(unused)]
+mod doctests {
+    include!(concat!(env!("OUT_DIR"), "/doctests.rs"));
+}
+
 unsafe extern "C" {
     fn atexit(cb: extern "C" fn()) -> i32;
 }
